@@ -315,7 +315,7 @@ contract(A + "preserve_context", props=["C06"], types={"f": "role:UserCode"}, re
                    ("level-strings-are-ascii", "forall(lambda l: ascii_ok(levelstr(l)), 'seq')")],
          modifies=["field:_last_child", "field:locked_flag"],
          ensures=[("no-current-action-returns-the-function-itself", "implies(curact() is None, result is f and pos_unchanged())", ["C06"]),
-                  ("otherwise-reserves-exactly-one-position", "implies(curact() is not None, pos(typed(curact(), 'Action')) == old(pos(typed(curact(), 'Action'))) + 1 and result is not f)", ["C06"]),
+                  ("otherwise-reserves-exactly-one-position", "implies(curact() is not None, pos(typed(curact(), 'Action')) == old(pos(typed(curact(), 'Action'))) + 1 and result is not f and result is not None)", ["C06"]),
                   ("context-untouched", "CTX == old(CTX)", ["C04"])])
 specfun("pos_unchanged", [], "only_changed('_last_child')")
 
@@ -323,15 +323,17 @@ contract(A + "preserve_context.restore_eliot_context", props=["C06"], types={"ar
          free={"f": "role:UserCode", "called": "Lock", "task_id": "bytes", "U": "str", "L": "seq"},
          ghost_args={"Action.continue_task#0": {"U": "U", "L": "L"}},
          call_tokens={"UserCode.__call__#0": "held(called)"},
-         ghosts={"RAN": "bool"}, ghost_defaults={"RAN": "False"},
-         after={"UserCode.__call__#0": [("RAN", "True")]}, after_raise={"UserCode.__call__#0": [("RAN", "True")]},
+         ghosts={"RAN": "bool", "RET": "Any", "CARGS": "seq", "CKW": "Any"}, ghost_defaults={"RAN": "False"},
+         after={"UserCode.__call__#0": [("RAN", "True"), ("RET", "box(result)"), ("CARGS", "old(LASTARGS)"), ("CKW", "old(LASTKW)")]},
+         after_raise={"UserCode.__call__#0": [("RAN", "True")]},
          assumes=[("string library axioms, instance for U, L", "codec_facts(U, L)")],
          requires=[("current-ok", "cur_ok()"),
                    ("the-id-came-from-serialize_task_id", "all_nat(L) and not str_contains(U, '@') and ascii_ok(U) and task_id == bytes_of(U + '@' + levelstr(L))"),
                    ("E12-dicts-owned", "True")],
          modifies=["*"],
          ensures=[("first-caller-runs-the-function-once-and-passes-its-result-through",
-                   "not old(is_locked(called))", ["C06"]),
+                   "not old(is_locked(called)) and RAN and box(result) == RET", ["C06"]),
+                  ("the-function-gets-the-very-same-arguments", "CARGS == old(seq(args)) and CKW == old(dict_of(kwargs))", ["C06"]),
                   ("context-restored", "CTX[me] == old(CTX[me])", ["C04", "C05"])],
          raises=[{"cls": "TooManyCalls", "when": "old(is_locked(called))", "iff": True,
                   "ensures": [("every-other-call-raises-TooManyCalls-without-running-the-function", "NTOP[f] == old(NTOP[f]) and LOG == old(LOG)", ["C06"])]},
@@ -343,8 +345,9 @@ specfun("last_user_call_returned", ["f", "r"], "True")
 # ------------------------------------------------------------------------------------------------ log_call (C18)
 contract(A + "log_call.logging_wrapper", props=["C18"], shards=8, types={"args": "tuple", "kwargs": "dict"}, returns="Any",
          free={"wrapped_function": "role:UserCode", "action_type": "Any", "include_args": "Opt[list[str]]", "include_result": "bool"},
-         ghosts={"RET": "Any", "EXC": "Any", "NCALLS": "int", "BOUND": "Any", "STARTF": "Any", "ADDED": "bool", "CARGS": "seq", "CKW": "Any", "INSIDE": "Any"},
+         ghosts={"RET": "Any", "EXC": "Any", "NCALLS": "int", "BOUND": "Any", "STARTF": "Any", "ADDED": "bool", "CARGS": "seq", "CKW": "Any", "INSIDE": "Any", "STARTD": "Any"},
          ghost_defaults={"NCALLS": "0", "ADDED": "False"},
+         snapshots={"Action._start#0": [("STARTD", "dict_of(fields)")]},
          after={"UserCode.__call__#0": [("RET", "box(result)"), ("NCALLS", "NCALLS + 1"), ("CARGS", "old(LASTARGS)"), ("CKW", "old(LASTKW)"), ("INSIDE", "old(CTX[me])")],
                 "Action._start#0": [("STARTF", "box(fields)")],
                 "Action.addSuccessFields#0": [("ADDED", "True")]},
@@ -356,6 +359,9 @@ contract(A + "log_call.logging_wrapper", props=["C18"], shards=8, types={"args":
          ensures=[("same-return-value-whether-or-not-the-result-is-logged", "box(result) == RET and NCALLS == 1", ["C18"]),
                   ("called-with-the-very-same-arguments", "CARGS == old(seq(args)) and CKW == old(dict_of(kwargs))", ["C18"]),
                   ("result-logged-iff-include_result", "ADDED == include_result", ["C18"]),
+                  ("start-message-holds-the-arguments-as-python-binds-them-without-self-restricted-to-include_args",
+                   "STARTD == ite(include_args is None, without(bound_args(wrapped_function, old(seq(args)), old(dict_of(kwargs))), 'self'), "
+                   "restrict(without(bound_args(wrapped_function, old(seq(args)), old(dict_of(kwargs))), 'self'), setof_seq(old(seq(typed(include_args, 'list'))))))", ["C18"]),
                   ("context-restored", "CTX[me] == old(CTX[me])", ["C04"])],
          raises=[{"cls": "BaseException",
                   "ensures": [("either-the-call-did-not-bind-and-the-function-never-ran-or-its-own-exception-object-propagates",
